@@ -70,6 +70,14 @@ CHECKS = {
          "Seeded search over interleavings of 2-4 clients on LocalBlobstore (separate instances on one directory, file-operation granularity, emulated blocking flock, simulated nanosecond mtimes as versions) and InMemoryBlobstore (call granularity): Get / CheckAndPutManifest histories are checked with porcupine against a versioned register and every version must read back with the contents written under it; byte ranges (prefix, inner, suffix, negative offsets) and Concatenate ride along against a byte-slice model; a third of the runs put NewNoConjoinBSStore on top and run the C02 committer + fresh-reader workload with the C02 oracle.",
          "The git-backed and cloud blobstores are not covered (need a git subprocess / network service outside the simulator). mtime-as-version is asserted for a monotone clock with nanosecond stamps only. Sampling of schedules.",
          "deterministic simulation: seeded S1 scheduler over real blobstores + porcupine linearizability check against a versioned register", "DESIGN.md §6.1 C42", "dsim-store"),
+ "C20": ("exploration",
+         "Seeded search over interleavings of 2-4 sessions issuing Commit, CommitWithWorkingSet, FastForward, SetHead, Tag, Delete, UpdateWorkingSet and atomic whole-map reads through the real datas.Database, either sharing one database object (parked in the window between reading the store root and the compare-and-swap) or as separate processes on one directory (parked at file operations); the history is checked with porcupine against a map dataset-id -> address whose conditional operations require the state the caller observed and whose refusals change nothing; non-forcing moves must go to descendants.",
+         "Histories <= 70 operations; all commits share one root value (addresses are what is checked). Sampling of schedules.",
+         "deterministic simulation: seeded S1 scheduler at the ChunkStore / file-operation seams + porcupine against a conditional-update map model", "DESIGN.md §6.2 C20", "dsim-refs"),
+ "C21": ("exploration",
+         "(1) The C20 interleaving harness with the combined commit+working-set update, its competitors and atomic reads always enabled: no read may show the head of one update with the working set of another. (2) Crash images of single-session update sequences on a journaling store: at every op-log position on the journal/manifest, with the unsynced tail lost, kept, cut at record boundaries or turned to garbage, the reopened dataset map must be exactly the last acknowledged or the in-flight one.",
+         "Persistence model as stated in the evidence; SQL-level dolt_commit is decided in the SQL harnesses.",
+         "deterministic simulation: S1 interleavings + porcupine, and op-log crash-image enumeration with real recovery", "DESIGN.md §6.2 C21", "dsim-refs"),
 }
 
 def main():
@@ -99,6 +107,8 @@ def main():
         else:
             na.append({"property_id": pid, "reason": "simulation check designed (DESIGN.md §6) but not built yet; not claimed until it runs"})
     engines = [
+        {"name": "dsim-refs", "path": "/verif/sim/refs", "serves_properties": [p for p, c in CHECKS.items() if c[5] == "dsim-refs"],
+         "kind_free_text": "deterministic simulator: real datas / doltdb / remotesrv / remotestorage over the simulated OS, seeded S1 scheduler, porcupine"},
         {"name": "dsim-store", "path": "/verif/sim/store", "serves_properties": [p for p, c in CHECKS.items() if c[5] == "dsim-store"],
          "kind_free_text": "deterministic simulator: real go/store/** over a simulated OS (overlay-patched package os), synctest fake clock, seeded scheduler, op-log crash images"},
     ]
